@@ -9,11 +9,17 @@
   that value and leaves any following bytes untouched. Length and integer boundaries (23/24, 2^8,
   2^16, 2^32, 2^64) are inside the theorem, not sampled.
 
-  Decided per case on the real code, not proved: semantic tags, string packing (stringref; D26 was
+  Big floats (CBOR tag 5, carried by jsoncons as the text "[-]0x<hex mantissa>p[-]<hex exponent>"; JV.Model.BigFloat, tied byte for
+  byte by the `cbor-bigfloat-model` stream): for every mantissa - on either side of the int64 / bignum line - and every int64 exponent,
+  the text the decoder renders is read back by the encoder as the same pair (`bigfloat_text_roundtrip`), and the bytes the encoder writes
+  denote that pair under RFC 8949 §3.4.4 (`bigfloat_bytes_roundtrip`). D79 (a bignum mantissa came back as garbled text) lived here.
+
+  Decided per case on the real code, not proved: the other semantic tags, string packing (stringref; D26 was
   found there and repaired), typed arrays, and the MessagePack / UBJSON / BSON round trips under
   their documented mappings (see the check's streams).
 -/
 import JV.Proofs.CborRoundtrip
+import JV.Proofs.BigFloat
 namespace JV.Props.C06
 open JV Model.Cbor Spec.Cbor
 
@@ -44,7 +50,43 @@ theorem float32_shortcut_lossless (b : Nat) (hb : b < 2 ^ 64)
 theorem nan_not_narrowed (b : Nat) (he : b / 2 ^ 52 % 2048 = 2047) (hm : b % 2 ^ 52 ≠ 0) : narrowF32 b = none := by
   simp [narrowF32, he, hm]
 
+/-- big floats: the decoder's text for (mantissa, exponent) is parsed back by the encoder as exactly that pair -/
+theorem bigfloat_text_roundtrip (m e : Int) : Model.BigFloat.parse (Model.BigFloat.render m e) = some (m, e) :=
+  Model.BigFloat.parse_render m e
+
+/-- big floats: the bytes written for (mantissa, exponent) - integer or bignum mantissa - are read back, under RFC 8949 §3.4.4, as that
+    pair, leaving what follows untouched. `hlen` says the mantissa's magnitude is shorter than 2^64 bytes (a CBOR length must fit 64 bits). -/
+theorem bigfloat_bytes_roundtrip (m e : Int) (he : Model.BigFloat.fitsInt64 e = true)
+    (hlen : (Model.BigFloat.beMag (if m ≥ 0 then m.toNat else (-1 - m).toNat)).length < 2 ^ 64) (rest : Bytes) :
+    ∃ bytes, Model.BigFloat.encodeBigfloat m e = some bytes ∧ Model.BigFloat.decodeBigfloat (bytes ++ rest) = some ((m, e), rest) := by
+  refine ⟨_, by simp [Model.BigFloat.encodeBigfloat, he]; rfl, ?_⟩
+  simp only [List.cons_append, List.append_assoc, Model.BigFloat.decodeBigfloat]
+  rw [Model.BigFloat.readInt_writeInt e he]
+  by_cases hm : Model.BigFloat.fitsInt64 m = true
+  · simp only [hm, if_true]; rw [Model.BigFloat.readMantissa_writeInt m hm]
+  · have hm' : Model.BigFloat.fitsInt64 m = false := by simpa using hm
+    simp only [hm', Bool.false_eq_true, if_false]; rw [Model.BigFloat.readMantissa_bignum m hlen]
+
+/-- … and so text → bytes → pair: encoding the rendered text denotes the pair the text was rendered from -/
+theorem bigfloat_render_encode_decode (m e : Int) (he : Model.BigFloat.fitsInt64 e = true)
+    (hlen : (Model.BigFloat.beMag (if m ≥ 0 then m.toNat else (-1 - m).toNat)).length < 2 ^ 64) :
+    ∃ bytes, Model.BigFloat.encodeText (Model.BigFloat.render m e) = some bytes ∧
+             Model.BigFloat.decodeBigfloat bytes = some ((m, e), []) := by
+  obtain ⟨bytes, h1, h2⟩ := bigfloat_bytes_roundtrip m e he hlen []
+  exact ⟨bytes, by simp [Model.BigFloat.encodeText, bigfloat_text_roundtrip, h1], by simpa using h2⟩
+
 /-! ### non-vacuity -/
+/-- "0x10000000000000000p-3" -/
+example : Model.BigFloat.render (2 ^ 64) (-3) = [48, 120, 49, 48, 48, 48, 48, 48, 48, 48, 48, 48, 48, 48, 48, 48, 48, 48, 48, 112, 45, 51] := by
+  simp [Model.BigFloat.render, Model.BigFloat.toHex, Model.BigFloat.hexDigit]
+/-- "-0x18p3" is written as tag 5 [3, -24] -/
+example : Model.BigFloat.encodeText [45, 48, 120, 49, 56, 112, 51] = some [0xc5, 0x82, 0x03, 0x37] := by
+  simp [Model.BigFloat.encodeText, Model.BigFloat.parse, Model.BigFloat.splitP, Model.BigFloat.ofHex, Model.BigFloat.ofHexAcc,
+    Model.BigFloat.hexVal, Model.BigFloat.parseExp, Model.BigFloat.signed, Model.BigFloat.encodeBigfloat, Model.BigFloat.fitsInt64,
+    writeInt, writeHead]
+/-- a mantissa of 2^64 travels as a bignum (tag 2, nine bytes) -/
+example : Model.BigFloat.encodeBigfloat (2 ^ 64) (-3) = some [0xc5, 0x82, 0x22, 0xc2, 0x49, 1, 0, 0, 0, 0, 0, 0, 0, 0] := by
+  simp [Model.BigFloat.encodeBigfloat, Model.BigFloat.fitsInt64, writeInt, writeHead, Model.BigFloat.writeBignum, Model.BigFloat.beMag]
 def sample : CV := .map [([97], .arr [.int 23, .int 24, .int (-1), .int (2 ^ 64 - 1), .int (-(2 ^ 63))]),
                           ([195, 169], .str [240, 159, 152, 128]), ([98], .bytes [0, 255]), ([99], .map []), ([100], .null)]
 example : OK sample := by
